@@ -134,6 +134,27 @@ theorem c11_sse_body_messages (dec : Dec P) (id : Option Id) (r : Resp)
   have := c11_success_passthrough dec id r hs (by simpa [hcont] using hne) (by simp [hc])
   simpa [hcont] using this
 
+/-- Encoding twins: the same message text, once as an `application/json` body and once as the data
+of an SSE message event (any conformant encoding of that one event), is turned into the same
+delivery — both bodies are decoded by the same decoder, and what it accepts in one it accepts in
+the other. -/
+theorem c11_encoding_twins (dec : Dec P) (id : Option Id) (rj rs : Resp) (e : Event) (eols : List Bool) (tail : Tail)
+    (m : Msg P)
+    (hj : rj.status < 400 ∧ rj.ctype = .json ∧ rj.body.utf8 = true) (hdec : dec.json rj.body.text = some (.msg m))
+    (hs : rs.status < 400 ∧ rs.ctype = .sse) (hconf : Conformant e = true) (hbody : rs.body.text = renderText [e] eols tail)
+    (hname : effType e.name = "message".toList) (hdata : joinNl e.data = rj.body.text) (hne : e.data ≠ [])
+    (hstrip : strip rj.body.text = rj.body.text) (hbrace : rj.body.text.head? = some '{') :
+    outcome dec id (.resp rj) = outcome dec id (.resp rs) := by
+  have h1 := (c11_json_body_messages dec id rj hj.1 hj.2.1 hj.2.2).1 m hdec
+  have hev : sseEventMsgs dec (effType e.name, joinNl e.data) = [m] := by
+    simp [sseEventMsgs, hname, hdata, hstrip, hbrace, hdec, routeAll]
+  have h2 := c11_sse_body_messages dec id rs [e] eols tail (fun _ => [m]) hs.1 hs.2
+    (by intro x hx; simp at hx; subst hx; exact hconf)
+    (by intro x hx _; simp at hx; subst hx; exact hev)
+    (by intro x hx hd; simp at hx; subst hx; exact absurd hd hne)
+    (by simp) hbody
+  rw [h1, h2]; simp
+
 /-- Notification POST: nothing the transport synthesises carries an id, whatever the answer;
 and when the answer is a failure nothing at all carrying an id is delivered. -/
 theorem c11_no_id_for_notification (dec : Dec P) (b : Behaviour) :
